@@ -79,6 +79,160 @@ func unwrittenIO(s step) bool {
 	return true
 }
 
+// answer is what a node says about its namespace.
+type answer struct {
+	ns    string
+	nsNil bool
+	im    string
+	imErr error
+}
+
+func ask(e *yang.Entry) answer {
+	var a answer
+	if v := e.Namespace(); v != nil {
+		a.ns = v.Name
+	} else {
+		a.nsNil = true
+	}
+	a.im, a.imErr = e.InstantiatingModule()
+	return a
+}
+
+func (a answer) String() string {
+	if a.imErr != nil {
+		return fmt.Sprintf("ns=%q im=error", a.ns)
+	}
+	return fmt.Sprintf("ns=%q im=%q", a.ns, a.im)
+}
+
+// forEachNode visits every node of every module tree and then of every submodule's own tree, in
+// the order of the dump (children by name, then input, then output).
+func forEachNode(ms *yang.Modules, f func(key string, e *yang.Entry)) {
+	var rec func(key string, e *yang.Entry, depth int)
+	rec = func(key string, e *yang.Entry, depth int) {
+		f(key, e)
+		if depth > 64 {
+			return
+		}
+		ks := make([]string, 0, len(e.Dir))
+		for k := range e.Dir {
+			ks = append(ks, k)
+		}
+		sort.Strings(ks)
+		for _, k := range ks {
+			rec(key+"/"+k, e.Dir[k], depth+1)
+		}
+		if e.RPC != nil {
+			if e.RPC.Input != nil {
+				rec(key+"/input", e.RPC.Input, depth+1)
+			}
+			if e.RPC.Output != nil {
+				rec(key+"/output", e.RPC.Output, depth+1)
+			}
+		}
+	}
+	for _, m := range lib.DistinctModules(ms) {
+		rec(m.FullName()+" /"+m.Name, yang.ToEntry(m), 0)
+	}
+	for _, m := range distinctSubs(ms) {
+		rec("sub:"+m.FullName()+" /"+m.Name, yang.ToEntry(m), 0)
+	}
+}
+
+// nsQueries derives the direct FindModuleByNamespace questions from the declared namespaces,
+// exactly as lean/Drv/C12.lean does: every declared namespace and near-twin spellings of it.
+func nsQueries(ms *yang.Modules) []string {
+	const kelvin = "\u212a"
+	asciiMap := func(s string, lo, hi rune, d rune) string {
+		return strings.Map(func(r rune) rune {
+			if r >= lo && r <= hi {
+				return r + d
+			}
+			return r
+		}, s)
+	}
+	variants := func(ns string) []string {
+		trimmed := ns
+		if strings.HasSuffix(ns, "/") || strings.HasSuffix(ns, " ") {
+			trimmed = ns[:len(ns)-1]
+		}
+		return []string{ns, asciiMap(ns, 'a', 'z', -32), asciiMap(ns, 'A', 'Z', 32), ns + "/", ns + " ", trimmed,
+			strings.ReplaceAll(strings.ReplaceAll(ns, "K", kelvin), "k", kelvin),
+			strings.ReplaceAll(ns, kelvin, "K"), strings.ReplaceAll(ns, kelvin, "k"),
+			strings.ReplaceAll(ns, "%2F", "%2f"), strings.ReplaceAll(ns, "%2f", "%2F"),
+			strings.ReplaceAll(strings.ReplaceAll(ns, "%2F", "/"), "%2f", "/"), strings.ReplaceAll(ns, "/", "%2F")}
+	}
+	var declared []string
+	seen := map[string]bool{}
+	for _, m := range lib.DistinctModules(ms) {
+		ns := ""
+		if m.Namespace != nil {
+			ns = m.Namespace.Name
+		}
+		if !seen[ns] {
+			seen[ns] = true
+			declared = append(declared, ns)
+		}
+	}
+	sort.Strings(declared)
+	var out []string
+	seen = map[string]bool{}
+	for _, ns := range declared {
+		for _, q := range variants(ns) {
+			if !seen[q] {
+				seen[q] = true
+				out = append(out, q)
+			}
+		}
+	}
+	return out
+}
+
+// direct asks FindModuleByNamespace for every derived question (in the given order) and holds the
+// answers against the rule: the module(s) declaring exactly that string - one name => that name,
+// none or several names => an error. Returns the `Q` records in question order.
+func direct(ms *yang.Modules, reverse bool, label string, add func(string, ...any), cnt map[string]int) []string {
+	qs := nsQueries(ms)
+	recs := make([]string, len(qs))
+	for n := range qs {
+		i := n
+		if reverse {
+			i = len(qs) - 1 - n
+		}
+		q := qs[i]
+		names := map[string]bool{}
+		for _, m := range lib.DistinctModules(ms) {
+			if m.Namespace != nil && m.Namespace.Name == q {
+				names[m.Name] = true
+			}
+		}
+		got, err := ms.FindModuleByNamespace(q)
+		cnt["direct_namespace_questions"]++
+		if len(names) == 0 {
+			cnt["direct_namespace_questions_for_undeclared_spellings"]++
+		}
+		switch {
+		case len(names) == 1 && (err != nil || got == nil || !names[got.Name]):
+			add("%sFindModuleByNamespace(%q): got %v, %v; exactly one module name declares it", label, q, modName(got), err)
+		case len(names) != 1 && err == nil:
+			add("%sFindModuleByNamespace(%q) = %s, but %d module names declare exactly this string: must be an error", label, q, modName(got), len(names))
+		}
+		if err != nil || got == nil {
+			recs[i] = "Q " + lib.HexS(q) + " !"
+		} else {
+			recs[i] = "Q " + lib.HexS(q) + " " + lib.HexS(got.Name)
+		}
+	}
+	return recs
+}
+
+func modName(m *yang.Module) string {
+	if m == nil {
+		return "<nil>"
+	}
+	return m.Name
+}
+
 func hook(c rescorr.Case, ms *yang.Modules, errs []error, out *rescorr.GoOut) {
 	if len(errs) > 0 {
 		return
@@ -96,6 +250,58 @@ func hook(c rescorr.Case, ms *yang.Modules, errs []error, out *rescorr.GoOut) {
 		}
 	}
 	cnt := map[string]int{}
+	// first value: every node asked in dump order (DumpOutcome has done so once already), then
+	// the direct questions
+	fwd := map[string]answer{}
+	subDump := examine(ms, expect, nil, "", add, cnt, fwd)
+	subDump = append(subDump, direct(ms, false, "", add, cnt)...)
+	if c.Extra["reverse"] == "1" {
+		// a fresh value, every node asked in the opposite order: the answers must not depend on
+		// what was asked before
+		const label = "asked in reverse order on a fresh Modules value: "
+		ms2, err := rescorr.Load(c)
+		if err != nil {
+			add("%ssecond load failed: %v", label, err)
+		} else if errs2 := ms2.Process(); len(errs2) > 0 {
+			add("%ssecond Process failed: %v", label, errs2[0])
+		} else {
+			var keys []string
+			var nodes []*yang.Entry
+			forEachNode(ms2, func(k string, e *yang.Entry) { keys = append(keys, k); nodes = append(nodes, e) })
+			rev := map[string]answer{}
+			for i := len(nodes) - 1; i >= 0; i-- {
+				rev[keys[i]] = ask(nodes[i])
+			}
+			cnt2 := map[string]int{}
+			got := map[string]answer{}
+			examine(ms2, expect, rev, label, add, cnt2, got)
+			cnt["nodes_asked_again_in_reverse_order"] += len(nodes)
+			var ks []string
+			for k := range fwd {
+				ks = append(ks, k)
+			}
+			sort.Strings(ks)
+			for _, k := range ks {
+				a, b := fwd[k], got[k]
+				if a.ns != b.ns || a.im != b.im || (a.imErr == nil) != (b.imErr == nil) {
+					add("order of the questions changes the answer at %s: %v in dump order, %v in reverse order on a fresh value", k, a, b)
+				}
+			}
+			direct(ms2, true, label, add, cnt)
+		}
+	}
+	out.Extra = map[string][]string{"subdump": subDump}
+	for k, v := range cnt {
+		out.Extra[k] = []string{strconv.Itoa(v)}
+	}
+}
+
+// examine runs the oracles over all trees of ms. answers == nil: the nodes are asked as the walk
+// reaches them and the submodule trees are dumped; else the answers recorded beforehand are used.
+// What every node answered is stored in got. Returns the dump of the submodule trees.
+func examine(ms *yang.Modules, expect map[string]gen.C12Expect, answers map[string]answer, label string,
+	add0 func(string, ...any), cnt map[string]int, got map[string]answer) []string {
+	add := func(format string, a ...any) { add0(label+format, a...) }
 	// are the namespaces of differently named modules distinct? (then InstantiatingModule must not fail)
 	nsOwner := map[string]string{}
 	distinctNS := true
@@ -174,15 +380,19 @@ func hook(c rescorr.Case, ms *yang.Modules, errs []error, out *rescorr.GoOut) {
 		}
 		// --- namespace attribution
 		lib := impliedCase(e) || unwrittenIO(chain[len(chain)-1])
-		ns := ""
-		if v := e.Namespace(); v != nil {
-			ns = v.Name
-		} else {
-			add("namespace: %s %s: Namespace() returned nil (documented: never nil)", tree, path)
-		}
-		im, imErr := e.InstantiatingModule()
 		key := tree + " " + path
 		visited[key] = true
+		var a answer
+		if answers != nil {
+			a = answers[key]
+		} else {
+			a = ask(e)
+		}
+		got[key] = a
+		if a.nsNil {
+			add("namespace: %s %s: Namespace() returned nil (documented: never nil)", tree, path)
+		}
+		ns, im, imErr := a.ns, a.im, a.imErr
 		switch {
 		case subOwner != nil:
 			// a submodule's own tree: nothing is grafted there, so every node - written in the
@@ -264,7 +474,9 @@ func hook(c rescorr.Case, ms *yang.Modules, errs []error, out *rescorr.GoOut) {
 	var subDump []string
 	for _, m := range distinctSubs(ms) {
 		root := yang.ToEntry(m)
-		lib.DumpTree("sub:"+m.FullName(), root, &subDump)
+		if answers == nil {
+			lib.DumpTree("sub:"+m.FullName(), root, &subDump)
+		}
 		if m.BelongsTo == nil {
 			continue
 		}
@@ -286,10 +498,7 @@ func hook(c rescorr.Case, ms *yang.Modules, errs []error, out *rescorr.GoOut) {
 			add("tree shape: expected node %s is missing", k)
 		}
 	}
-	out.Extra = map[string][]string{"subdump": subDump}
-	for k, v := range cnt {
-		out.Extra[k] = []string{strconv.Itoa(v)}
-	}
+	return subDump
 }
 
 // distinctSubs returns the distinct values of ms.SubModules sorted by full name.
@@ -416,7 +625,7 @@ func corpus() []rescorr.Case {
 			}
 		}
 		b, _ := json.Marshal(tab)
-		c.Extra = map[string]string{"expect": string(b)}
+		c.Extra = map[string]string{"expect": string(b), "reverse": "1"}
 		return c
 	}
 	return []rescorr.Case{
@@ -524,6 +733,29 @@ func corpus() []rescorr.Case {
 			`submodule part { belongs-to owner { prefix o; } include part2; grouping g { leaf gl { type string; } }
 			   container sub-c { config false; uses g; leaf s { type string; } } rpc sub-rpc { output { leaf r { type string; } } } }`,
 			`submodule part2 { belongs-to owner { prefix o; } container p2c { leaf q { type string; } uses g; } }`),
+		// two modules whose namespaces differ only in letter case (a third: trailing slash), each
+		// placing nodes in its own tree, by augment into a third module and through the other's grouping
+		mk(`t /t urn:nt:target t
+			t /t/top urn:nt:target t
+			t /t/top/own urn:nt:target t
+			t /t/top/a-leaf urn:nt:Vendor va
+			t /t/top/b-leaf urn:nt:vendor vb
+			t /t/top/b-box urn:nt:vendor vb
+			t /t/top/b-box/from-g urn:nt:vendor vb
+			t /t/top/c-leaf urn:nt:vendor/ vc
+			va /va urn:nt:Vendor va
+			va /va/a-root urn:nt:Vendor va
+			va /va/a-root/x urn:nt:Vendor va
+			vb /vb urn:nt:vendor vb
+			vb /vb/b-root urn:nt:vendor vb
+			vb /vb/b-root/y urn:nt:vendor vb
+			vc /vc urn:nt:vendor/ vc`,
+			`module t { namespace "urn:nt:target"; prefix t; container top { leaf own { type string; } } }`,
+			`module va { namespace "urn:nt:Vendor"; prefix va; import t { prefix t; } grouping g { leaf from-g { type string; } }
+			   augment "/t:top" { leaf a-leaf { type string; } } container a-root { leaf x { type string; } } }`,
+			`module vb { namespace "urn:nt:vendor"; prefix vb; import t { prefix t; } import va { prefix va; }
+			   augment "/t:top" { leaf b-leaf { type string; } container b-box { uses va:g; } } container b-root { leaf y { type string; } } }`,
+			`module vc { namespace "urn:nt:vendor/"; prefix vc; import t { prefix t; } augment "/t:top" { leaf c-leaf { type string; } } }`),
 		// s1 includes s2, s2 augments another module: whatever the order of the owner's include
 		// statements, and also when the owner does not list s2 at all, the grafted nodes are m's
 		mk(`a /a urn:a a
@@ -674,13 +906,19 @@ func main() {
 	cfg.BadRate = 0.08
 	mkCase := func(i int) (rescorr.Case, bool) {
 		if i < nA {
-			s := gen.GenerateC12(f.Rand(i), gen.C12Opts{OpsConfigRate: 0.12, TwoRevisions: i%8 == 7, SharedAction: i%10 == 3})
+			twin := i%6 == 4
+			s := gen.GenerateC12(f.Rand(i), gen.C12Opts{OpsConfigRate: 0.12, TwoRevisions: i%8 == 7, SharedAction: i%10 == 3, TwinNS: twin})
 			names, texts := s.Set.FilesRev()
-			c := rescorr.Case{Names: names, Texts: texts}
+			c := rescorr.Case{Names: names, Texts: texts, Extra: map[string]string{}}
 			if s.Expect != nil {
 				b, _ := json.Marshal(s.Expect)
-				c.Extra = map[string]string{"expect": string(b)}
+				c.Extra["expect"] = string(b)
 				withExpect++
+			}
+			// second pass on a fresh value with every question in the opposite order: all sets with
+			// near-twin namespaces, every fourth of the others
+			if twin || i%4 == 1 {
+				c.Extra["reverse"] = "1"
 			}
 			for k, v := range s.Feat {
 				feat[k] += int64(v)
@@ -689,7 +927,11 @@ func main() {
 		}
 		set := gen.Generate(f.Rand(1000000+i-nA), cfg)
 		names, texts := set.Files()
-		return rescorr.Case{Names: names, Texts: texts}, false
+		c := rescorr.Case{Names: names, Texts: texts}
+		if i%4 == 1 {
+			c.Extra = map[string]string{"reverse": "1"}
+		}
+		return c, false
 	}
 	const chunk = 20000
 	for lo := -1; lo < nA+nB; {
@@ -768,7 +1010,7 @@ func main() {
 	}
 	res.Evaluations = total
 	res.DistinctNontrivial = distinct.Len()
-	res.Rule = "module sets: a hand-written corpus (D39, D40, grouping across modules with action, augment from a submodule), then seeded sets of harness/gen/c12.go (1-4 modules, 0-2 submodules each incl. nested include, globally unique groupings used across modules/submodules and inside each other, config statements at every depth on leaf/leaf-list/container/list/choice/anydata, choice/case with shorthand members, rpc/action/notification with config inside them at a low rate, augments from modules and submodules into own and imported modules incl. chains, shorthand choice members, written and unwritten rpc input/output, paths with and without implied-case steps; every 8th set additionally loads an older revision of one module) with the generator's provenance table, then sets of the shared generator gen.Generate (deviations included) without a table; every set is examined on all module trees and on the own trees of all submodules (incl. submodules that include other submodules); distinct_nontrivial = distinct sets (by text) that process without errors and contain at least one read-only node or one node whose namespace differs from its tree's module"
+	res.Rule = "module sets: a hand-written corpus (D39, D40, grouping across modules with action, augment from a submodule), then seeded sets of harness/gen/c12.go (1-4 modules, 0-2 submodules each incl. nested include, globally unique groupings used across modules/submodules and inside each other, config statements at every depth on leaf/leaf-list/container/list/choice/anydata, choice/case with shorthand members, rpc/action/notification with config inside them at a low rate, augments from modules and submodules into own and imported modules incl. chains, shorthand choice members, written and unwritten rpc input/output, paths with and without implied-case steps; every 8th set additionally loads an older revision of one module; every 6th set gives two or three modules near-twin namespaces - letter case, trailing slash or blank, prefix, percent-encoding, K vs KELVIN SIGN - and lets each place nodes in its own tree, through the other's grouping and by augments into a third module) with the generator's provenance table, then sets of the shared generator gen.Generate (deviations included) without a table; on every set FindModuleByNamespace is also asked directly for every declared namespace and for near-twin spellings nobody declares, and for all near-twin sets and every fourth other set all questions are asked again in reverse order on a freshly loaded and processed value; every set is examined on all module trees and on the own trees of all submodules (incl. submodules that include other submodules); distinct_nontrivial = distinct sets (by text) that process without errors and contain at least one read-only node or one node whose namespace differs from its tree's module"
 	res.Distribution["clean_sets"] = clean
 	res.Distribution["clean_sets_with_provenance_table"] = cleanA
 	res.Distribution["sets_with_errors"] = withErr
